@@ -167,3 +167,6 @@ impl DurationOps for u64 {
     #[verifier::external_body] fn as_secs(&self) -> (r: u64) { unimplemented!() }
     #[verifier::external_body] fn is_zero(&self) -> (r: bool) { unimplemented!() }
 }
+// context ids: `fresh_context_id(i)` = i was issued by the global id counter (envctor proves `ContextID::default` against it); it lives
+// here so that any unit can use that contract as a stub
+pub uninterp spec fn fresh_context_id(id: int) -> bool;
